@@ -17,6 +17,7 @@ import (
 	"runtime/debug"
 	"slices"
 	"sync"
+	"sync/atomic"
 	"time"
 )
 
@@ -636,6 +637,19 @@ func vsimNameOf(recv any) string {
 	return fmt.Sprintf("%T", recv)
 }
 
+// vsimLoopTick is inserted at the top of every loop body of the package: the work done
+// between two scheduling points is measured in loop iterations, deterministically.
+var vsimLoopN int64
+
+const vsimLoopHard = 50_000_000
+
+func vsimLoopTick() {
+	if atomic.AddInt64(&vsimLoopN, 1) > vsimLoopHard {
+		atomic.StoreInt64(&vsimLoopN, 0)
+		panic(fmt.Sprintf("vsim: more than %d loop iterations without reaching a scheduling point", vsimLoopHard))
+	}
+}
+
 // vsimMapKeys returns the keys of m in a seeded order (a legal refinement of
 // Go's unspecified map iteration order).
 func vsimMapKeys[K cmp.Ordered, V any](m map[K]V) []K {
@@ -788,4 +802,11 @@ func (s *vsimSim) describeBlocked() string {
 		out += fmt.Sprintf("  %s @%s: %s (locks held: %d)\n", t.name, t.site, st, t.nlocks)
 	}
 	return out
+}
+
+func (s *vsimSim) lastName() string {
+	if s.last != nil {
+		return s.last.name
+	}
+	return "<network delivery>"
 }
